@@ -46,6 +46,8 @@ type Op struct {
 	End    int  `json:"end,omitempty"`
 	Merge  bool `json:"merge,omitempty"`
 	ViaAPI bool `json:"api,omitempty"`
+	// NoFlush (gc): no forced flush before the pass (see doGC)
+	NoFlush bool `json:"noflush,omitempty"`
 	// gcpark: client operations placed at chosen steps of a GC pass that runs in its own goroutine
 	Places []Placement `json:"places,omitempty"`
 	// gcreq (C17): a request through HStore.GC with arbitrary arguments
@@ -1024,7 +1026,11 @@ func (r *histRunner) snapshotForGC(bkt *Bucket) *gcBefore {
 
 // doGC runs a GC pass (synchronously, or through the public API waiting for its end).
 func (r *histRunner) doGC(op *Op) error {
-	if err := hooks.releaseRotFlush(); err != nil {
+	// NoFlush: the pass starts while rotated files may still wait for their (parked) flush goroutine and the head holds
+	// unflushed records - GC itself must bring what it reads to disk first
+	if op.NoFlush && hooks.numParked() > 0 && r.opts.afterGC == nil && r.opts.beforeGC == nil {
+		r.label("gc_with_pending_rotation_flush")
+	} else if err := hooks.releaseRotFlush(); err != nil {
 		return err
 	}
 	served := []int{}
@@ -1038,7 +1044,9 @@ func (r *histRunner) doGC(op *Op) error {
 	}
 	bid := served[op.Bucket%len(served)]
 	bkt := r.store.buckets[bid]
-	r.store.flushdatas(true) // GC reads the files: everything acknowledged must be on disk first
+	if !(op.NoFlush && r.opts.afterGC == nil && r.opts.beforeGC == nil) {
+		r.store.flushdatas(true) // the scanner-based oracles (C17/C18, C07) read the files themselves: everything on disk first
+	}
 	begin, end, err := bkt.gcCheckRange(op.Begin, op.End, -1)
 	if err != nil {
 		r.label("gc_range_rejected")
@@ -1069,7 +1077,7 @@ func (r *histRunner) doGC(op *Op) error {
 	if r.opts.beforeGC != nil {
 		r.opts.beforeGC(r)
 	}
-	if op.ViaAPI {
+	if op.ViaAPI && !(op.NoFlush && hooks.numParked() > 0) { // (a pass on its own goroutine would be parked as "the rotation flush")
 		exits := hooks.count("gc.pass.exit")
 		b2, e2, err := r.store.GC(bid, op.Begin, op.End, -1, op.Merge, false)
 		if err != nil {
